@@ -209,3 +209,72 @@ def run(ctx: Ctx) -> None:
             ctx.check(dir_ok and swap_ok and fwd_ok, "R-C21.3", key, bo.where, fact,
                       "the reflected-operator fallback looks the method up in the wrong table or does not swap operands")
     ctx.assumptions.append("std dunder implementations are found as methods named __x__ inside classes under guppylang/std")
+
+    # ---------------- R-C21.4 write-back after a borrowing call re-points every traced leaf
+    from ..flow import CFG
+    upv = idx.find_func("update_packed_value", "guppylang_internals.tracing.unpacking")
+    ctx.saw("functions", upv.qualname)
+    match = next((n for n in walk_no_nested(upv.node) if isinstance(n, ast.Match)), None)
+    if match is None:
+        ctx.undecided("R-C21.4", f"{upv.qualname}#leaf-arm", upv.where, "no match statement")
+    else:
+        leaf = [c for c in match.cases if isinstance(c.pattern, (ast.MatchClass, ast.MatchAs))
+                and "GuppyObject" in ast.unparse(c.pattern) and "GuppyStructObject" not in ast.unparse(c.pattern)]
+        if not leaf:
+            ctx.undecided("R-C21.4", f"{upv.qualname}#leaf-arm", upv.where, "no `case GuppyObject()` arm")
+        for c in leaf:
+            g = CFG(body=c.body)
+
+            def repoints(n):
+                a = n.ast
+                return (isinstance(a, ast.Assign) and any(isinstance(t, ast.Attribute) and t.attr == "_wire" for t in a.targets)
+                        and any(isinstance(x, ast.Call) and isinstance(x.func, ast.Attribute) and x.func.attr == "_use_wire" for x in ast.walk(a.value)))
+
+            def resets_used(n):
+                a = n.ast
+                return isinstance(a, ast.Assign) and any(isinstance(t, ast.Attribute) and t.attr == "_used" for t in a.targets) \
+                    and isinstance(a.value, ast.Constant) and a.value.value is None
+            allp = g.every_path_to_exit_passes(repoints)
+            allu = g.every_path_to_exit_passes(resets_used)
+            ctx.check(allp and allu, "R-C21.4", f"{upv.qualname}#leaf-repointed-on-all-paths", f"{upv.module.rel}:{c.pattern.lineno}",
+                      {"wire_updated_on_all_paths": allp, "used_flag_reset_on_all_paths": allu},
+                      "after a call that borrows a comptime value, some traced leaf keeps its pre-call wire: the comptime function "
+                      "does not see the callee's update although the same body as a @guppy function does")
+        # container arms must recurse into every element (loop without early success-exit)
+        n_rec = 0
+        for c in match.cases:
+            for loop in [n for b in c.body for n in walk_no_nested(b) if isinstance(n, ast.For)]:
+                rec = [x for st in loop.body for x in ast.walk(st) if isinstance(x, ast.Call) and dotted(x.func) == "update_packed_value"]
+                if not rec:
+                    continue
+                n_rec += 1
+                early_true = [r for st in loop.body for r in walk_no_nested(st) if isinstance(r, ast.Return)
+                              and isinstance(r.value, ast.Constant) and r.value.value is True]
+                brk = [r for st in loop.body for r in walk_no_nested(st) if isinstance(r, ast.Break)]
+                ctx.check(not early_true and not brk, "R-C21.4", f"{upv.qualname}#container-arm-visits-every-element[{n_rec}]",
+                          f"{upv.module.rel}:{loop.lineno}", {"pattern": ast.unparse(c.pattern)[:40], "early_success_exits": len(early_true) + len(brk)},
+                          "the write-back after a borrowing call stops before all elements of a tuple/struct/list were re-pointed")
+        ctx.floor("R-C21.4", "container arms of update_packed_value", n_rec, 3)
+
+    # ---------------- R-C21.5 comptime Python values are never looked up by ==/hash
+    gofp = idx.find_func("guppy_object_from_py", "guppylang_internals.tracing.unpacking")
+    ctx.saw("functions", gofp.qualname)
+    vparam = gofp.node.args.args[0].arg
+    aliases = {vparam}
+    for n in walk_no_nested(gofp.node):
+        if isinstance(n, ast.match_case) and isinstance(n.pattern, ast.MatchAs) and n.pattern.pattern is None and n.pattern.name:
+            aliases.add(n.pattern.name)
+    keyed = []
+    for n in walk_no_nested(gofp.node):
+        if isinstance(n, ast.Subscript) and isinstance(n.slice, ast.Name) and n.slice.id in aliases:
+            keyed.append(f"{ast.unparse(n)}@{n.lineno}")
+        if isinstance(n, ast.Compare) and len(n.ops) == 1 and isinstance(n.ops[0], (ast.In, ast.NotIn)) and isinstance(n.left, ast.Name) \
+                and n.left.id in aliases and not isinstance(n.comparators[0], (ast.Tuple, ast.List, ast.Set)):
+            keyed.append(f"{ast.unparse(n)}@{n.lineno}")
+        if isinstance(n, ast.Call) and isinstance(n.func, ast.Attribute) and n.func.attr in ("get", "setdefault", "add", "pop", "index", "count") \
+                and n.args and isinstance(n.args[0], ast.Name) and n.args[0].id in aliases:
+            keyed.append(f"{ast.unparse(n)[:60]}@{n.lineno}")
+    ctx.check(not keyed, "R-C21.5", f"{gofp.qualname}#no-equality-keyed-lookup-of-python-values", gofp.where,
+              {"value_names": sorted(aliases), "keyed_lookups": keyed},
+              "a Python constant is looked up by ==/hash (1 == 1.0 == True): a comptime `x + 1` can reuse a float or bool constant "
+              "loaded earlier, unlike the same expression in a @guppy function")
